@@ -2,8 +2,14 @@ use crate::conn_id::ConnectionId;
 use crate::versioned_message::VersionedMessage;
 use aldrin_core::{BusListenerCookie, ChannelCookie, ObjectCookie, ProtocolVersion, ServiceCookie};
 use futures_channel::mpsc::UnboundedSender;
+#[cfg(not(kani))]
 use std::collections::hash_map::{Entry, HashMap};
+#[cfg(kani)]
+use crate::verif_collections::hash_map::{Entry, HashMap};
+#[cfg(not(kani))]
 use std::collections::HashSet;
+#[cfg(kani)]
+use crate::verif_collections::HashSet;
 
 #[derive(Debug)]
 pub(super) struct ConnectionState {
@@ -53,8 +59,14 @@ impl ConnectionState {
         self.objects.iter().copied()
     }
 
+    #[cfg(not(kani))]
     pub(crate) fn send(&self, msg: VersionedMessage) -> Result<(), ()> {
         self.send.unbounded_send(msg).map_err(|_| ())
+    }
+
+    #[cfg(kani)]
+    pub(crate) fn send(&self, msg: VersionedMessage) -> Result<(), ()> {
+        crate::verif::env::log_send(&self.send, msg)
     }
 
     pub(crate) fn subscribe_event(&mut self, svc_cookie: ServiceCookie, event: u32) {
@@ -189,3 +201,7 @@ impl ConnectionState {
             .map(|(callee_serial, callee_id)| (*callee_serial, callee_id))
     }
 }
+
+#[cfg(kani)]
+#[path = "/verif/harness/broker/conn_state.rs"]
+pub(crate) mod verif;
